@@ -481,13 +481,14 @@ class DualExec:
         self.v: Dict[int, np.ndarray] = {}
         self.const: Dict[int, bool] = {}
         self.base: Dict[int, Optional[int]] = {}  # owner name of a view (None for owners)
+        self.blocked: Dict[int, bool] = {}  # views whose chain of view ops passes through a constant view
         self.ver: Dict[int, int] = {}
         self.viewfn: Dict[int, Any] = {}  # for views: function mapping the owner's array to this view
         self.sd: Dict[int, set] = {}  # owner -> set of (owner', version) it structurally depends on (non-constant paths)
 
     def sd_full(self, name):
         """structural dependencies of tensor `name`, including its own current version"""
-        if self.const.get(name, True):
+        if self.const.get(name, True) or self.blocked.get(name, False):
             return set()
         o = self.owner(name)
         return set(self.sd.get(o, ())) | {(o, self.ver.get(o, 0))}
@@ -513,9 +514,10 @@ class DualExec:
     def operand(self, o):
         if o[0] == "t":
             a = self.v[o[1]]
-            if self.const[o[1]]:
+            if self.const[o[1]] or self.blocked.get(o[1], False):
                 # a constant tensor transmits no gradient, even when it is a (forced-constant) view that shares
-                # memory with a non-constant tensor: read values only
+                # memory with a non-constant tensor — and neither does a view taken *through* such a constant view
+                # (its chain of view ops passes a constant tensor): read values only
                 c = np.empty(a.shape, dtype=object)
                 for idx in np.ndindex(a.shape):
                     c[idx] = D.lift(a[idx]).const()
@@ -593,6 +595,7 @@ class DualExec:
                 v[st[1]] = r
                 self.const[st[1]] = c
                 self.base[st[1]] = self.owner(src)
+                self.blocked[st[1]] = self.blocked.get(src, False) or (self.const[src] and self.base.get(src) is not None)
             else:
                 self.new(st[1], r, c, deps=self.opdeps(st[3]))
         elif k == "take":
@@ -657,8 +660,9 @@ class DualExec:
         else:
             w = np.broadcast_to(np.array(seed[2], dtype=float).reshape(seed[1]), Lo.shape)
         tot = D(0)
-        for idx in np.ndindex(Lo.shape):
-            tot = tot + D.lift(Lo[idx]) * Fraction(int(w[idx]))
+        if not self.blocked.get(L, False):
+            for idx in np.ndindex(Lo.shape):
+                tot = tot + D.lift(Lo[idx]) * Fraction(int(w[idx]))
         out = {}
         for name, a in self.v.items():
             if self.base.get(name) is not None:
